@@ -180,6 +180,7 @@ var (
 	errStringDoesNotFit       = errors.New("string does not fit")
 	errVariableLength         = errors.New("variable-length format") // For packsize only
 	errOverflow               = errors.New("invalid format: option size overflow")
+	errResultTooLarge         = errors.New("format result too large")
 	errStringContainsZeros    = errors.New("string contains zeros")
 
 	errBudgetConsumed = errors.New("Packing memory budget consumed")
